@@ -420,6 +420,15 @@ def showDT (t : Nat × Nat × Nat × Nat × Nat × Nat) : List Char :=
   let (y, m, d, hh, mm, ss) := t
   pad 4 y ++ pad 2 m ++ pad 2 d ++ ['T'] ++ pad 2 hh ++ pad 2 mm ++ pad 2 ss
 
+/-- a field of the `(year, month, day, hour, minute, second)` of a datetime, by position -/
+def sixGet (t : Nat × Nat × Nat × Nat × Nat × Nat) : Nat → Nat
+  | 0 => t.1 | 1 => t.2.1 | 2 => t.2.2.1 | 3 => t.2.2.2.1 | 4 => t.2.2.2.2.1 | _ => t.2.2.2.2.2
+
+/-- `_common.weekday.__repr__`: `("MO", …, "SU")[self.weekday]`, followed by `(%+d)` when `n` is truthy (hand model; used by the
+    source translation of `rrule.__str__`, `Gen.rruleStr`) -/
+def weekdayRepr (w : WDay) : List Char :=
+  wdName w.1 ++ (match w.2 with | some n => if n != 0 then '(' :: showIntSigned n ++ [')'] else [] | none => [])
+
 /-- `repr(weekday)`: `MO` or `MO(+1)`; in `__str__`: `+1MO` when n is truthy -/
 def showWDayStr (w : WDay) : List Char :=
   match w.2 with
